@@ -53,9 +53,12 @@ import (
 	"github.com/cosmos/cosmos-sdk/testutil/sims"
 	"github.com/cosmos/cosmos-sdk/store/rootmulti"
 	sdk "github.com/cosmos/cosmos-sdk/types"
+	authtx "github.com/cosmos/cosmos-sdk/x/auth/tx"
+	codectypes "github.com/cosmos/cosmos-sdk/codec/types"
 	banktypes "github.com/cosmos/cosmos-sdk/x/bank/types"
 	gethcommon "github.com/ethereum/go-ethereum/common"
 	"github.com/ethereum/go-ethereum/common/hexutil"
+	gethcore "github.com/ethereum/go-ethereum/core/types"
 	"github.com/ethereum/go-ethereum/core/vm"
 	"github.com/ethereum/go-ethereum/crypto"
 	"github.com/gogo/protobuf/proto"
@@ -87,6 +90,7 @@ type c09Query struct {
 	To   int    `json:"to"`   // recipient account id (0..3) for transferring kinds; sender is always X
 	Amt  int64  `json:"amt"`  // unibi
 	Bn   int    `json:"bn"`   // trace kinds: requested block number = last committed height + bn (1 = the block in progress)
+	Args string `json:"args"` // eth_call / estimateGas kinds: "" | 1559 (maxFeePerGas + maxPriorityFeePerGas > 0, no gasPrice) | legacy (gasPrice) | access (access list) | biggas
 }
 
 type c09Input struct {
@@ -102,7 +106,7 @@ type c09Input struct {
 
 type c09Obs struct {
 	HashEq   bool     `json:"hash_eq"`  // app hash of the scenario block equal on both replicas
-	NextEq   bool     `json:"next_eq"`  // app hash of the following (empty) block equal
+	NextEq   bool     `json:"next_eq"`  // app hash of the following (empty) block equal AND the base fee the node reports afterwards equal
 	TxEq     bool     `json:"tx_eq"`    // DeliverTx responses of both txs (code, data, gas, events) equal
 	TxOK     bool     `json:"tx_ok"`    // both tx codes 0 on the replica WITH queries
 	BaseOK   bool     `json:"base_ok"`  // … on the replica without
@@ -421,14 +425,35 @@ func (w *world) grpc(path string, req proto.Message) (abci.ResponseQuery, error)
 	return r, nil
 }
 
-func (w *world) callArgs(to gethcommon.Address, value *big.Int, data []byte) []byte {
+// argVariant decorates the JSON args of an eth_call / eth_estimateGas the way different clients do.
+func (w *world) argVariant(a *evm.JsonTxArgs, variant string) {
+	switch variant {
+	case "1559": // what EIP-1559 wallets send: fee cap and a non-zero tip, no gasPrice
+		a.MaxFeePerGas = (*hexutil.Big)(big.NewInt(5 * gasPriceWei))
+		a.MaxPriorityFeePerGas = (*hexutil.Big)(big.NewInt(2 * gasPriceWei))
+	case "legacy":
+		a.GasPrice = (*hexutil.Big)(big.NewInt(3 * gasPriceWei))
+	case "access":
+		a.AccessList = &gethcore.AccessList{{Address: w.Y, StorageKeys: []gethcommon.Hash{gethcommon.BigToHash(big.NewInt(1))}}}
+	case "biggas":
+		g := hexutil.Uint64(9_000_000)
+		a.Gas = &g
+	}
+}
+
+func (w *world) argsFrom(from gethcommon.Address, to gethcommon.Address, value *big.Int, data []byte, variant string) []byte {
 	d := hexutil.Bytes(data)
-	a := evm.JsonTxArgs{From: &w.X.EthAddr, To: &to, Input: &d}
+	a := evm.JsonTxArgs{From: &from, To: &to, Input: &d}
 	if value != nil {
 		a.Value = (*hexutil.Big)(value)
 	}
+	w.argVariant(&a, variant)
 	bz, _ := json.Marshal(a)
 	return bz
+}
+
+func (w *world) callArgs(to gethcommon.Address, value *big.Int, data []byte, variant string) []byte {
+	return w.argsFrom(w.X.EthAddr, to, value, data, variant)
 }
 
 func (w *world) ethCall(path string, args []byte) string {
@@ -471,24 +496,19 @@ func (w *world) doQuery(q c09Query) (res string, gas int64) {
 	switch q.Kind {
 	case "call_read": // eth_call of a view method of the FunToken precompile
 		in, _ := embeds.SmartContract_FunToken.ABI.Pack("bankBalance", to, "unibi")
-		return w.ethCall("/eth.evm.v1.Query/EthCall", w.callArgs(ft, nil, in)), 0
+		return w.ethCall("/eth.evm.v1.Query/EthCall", w.callArgs(ft, nil, in, q.Args)), 0
 	case "call_xfer": // eth_call: plain value transfer X -> to (EVM only)
-		return w.ethCall("/eth.evm.v1.Query/EthCall", w.callArgs(to, unibiWei(q.Amt), nil)), 0
+		return w.ethCall("/eth.evm.v1.Query/EthCall", w.callArgs(to, unibiWei(q.Amt), nil, q.Args)), 0
 	case "call_bank": // eth_call of FunToken.bankMsgSend(to, unibi, amt) from X
-		return w.ethCall("/eth.evm.v1.Query/EthCall", w.callArgs(ft, nil, packBankMsgSend(to, "unibi", q.Amt))), 0
+		return w.ethCall("/eth.evm.v1.Query/EthCall", w.callArgs(ft, nil, packBankMsgSend(to, "unibi", q.Amt), q.Args)), 0
 	case "call_bank_other": // the same with a denom that is not the EVM denom
-		return w.ethCall("/eth.evm.v1.Query/EthCall", w.callArgs(ft, nil, packBankMsgSend(to, w.otherDn, q.Amt))), 0
+		return w.ethCall("/eth.evm.v1.Query/EthCall", w.callArgs(ft, nil, packBankMsgSend(to, w.otherDn, q.Amt), q.Args)), 0
 	case "call_s2b": // eth_call of FunToken.sendToBank(erc20, amt, to) from the ERC20 owner: ERC20 transfer + mint and send of the mapped bank denom
 		in, _ := embeds.SmartContract_FunToken.ABI.Pack("sendToBank", w.erc20, big.NewInt(q.Amt), to.Hex())
-		d := hexutil.Bytes(in)
-		a := evm.JsonTxArgs{From: &w.O.EthAddr, To: &ft, Input: &d}
-		bz, _ := json.Marshal(a)
-		return w.ethCall("/eth.evm.v1.Query/EthCall", bz), 0
+		return w.ethCall("/eth.evm.v1.Query/EthCall", w.argsFrom(w.O.EthAddr, ft, nil, in, q.Args)), 0
 	case "est_s2b": // eth_estimateGas of the same sendToBank
 		in, _ := embeds.SmartContract_FunToken.ABI.Pack("sendToBank", w.erc20, big.NewInt(q.Amt), to.Hex())
-		d := hexutil.Bytes(in)
-		bz, _ := json.Marshal(evm.JsonTxArgs{From: &w.O.EthAddr, To: &ft, Input: &d})
-		return w.ethCall("/eth.evm.v1.Query/EstimateGas", bz), 0
+		return w.ethCall("/eth.evm.v1.Query/EstimateGas", w.argsFrom(w.O.EthAddr, ft, nil, in, q.Args)), 0
 	case "trace_s2b": // debug_traceTransaction of a signed sendToBank from the ERC20 owner
 		in, _ := embeds.SmartContract_FunToken.ABI.Pack("sendToBank", w.erc20, big.NewInt(q.Amt), to.Hex())
 		msg, err := w.c.SignEth(w.O, &evm.EvmTxArgs{Nonce: 2, GasLimit: 2_000_000, GasPrice: big.NewInt(gasPriceWei), To: &ft, Input: in})
@@ -500,13 +520,11 @@ func (w *world) doQuery(q c09Query) (res string, gas int64) {
 		return errClass(err), 0
 	case "call_s2e": // eth_call of FunToken.sendToEvm(bankDenom, amt, to) from the ERC20 owner: bank coins burned, ERC20 released
 		in, _ := embeds.SmartContract_FunToken.ABI.Pack("sendToEvm", w.bankDn, big.NewInt(q.Amt), to.Hex())
-		d := hexutil.Bytes(in)
-		bz, _ := json.Marshal(evm.JsonTxArgs{From: &w.O.EthAddr, To: &ft, Input: &d})
-		return w.ethCall("/eth.evm.v1.Query/EthCall", bz), 0
+		return w.ethCall("/eth.evm.v1.Query/EthCall", w.argsFrom(w.O.EthAddr, ft, nil, in, q.Args)), 0
 	case "est_xfer":
-		return w.ethCall("/eth.evm.v1.Query/EstimateGas", w.callArgs(to, unibiWei(q.Amt), nil)), 0
+		return w.ethCall("/eth.evm.v1.Query/EstimateGas", w.callArgs(to, unibiWei(q.Amt), nil, q.Args)), 0
 	case "est_bank":
-		return w.ethCall("/eth.evm.v1.Query/EstimateGas", w.callArgs(ft, nil, packBankMsgSend(to, "unibi", q.Amt))), 0
+		return w.ethCall("/eth.evm.v1.Query/EstimateGas", w.callArgs(ft, nil, packBankMsgSend(to, "unibi", q.Amt), q.Args)), 0
 	case "trace_bank": // debug_traceTransaction of a signed bankMsgSend from X
 		msg := w.signedFromX(&ft, nil, packBankMsgSend(to, "unibi", q.Amt))
 		_, err := w.grpc("/eth.evm.v1.Query/TraceTx", &evm.QueryTraceTxRequest{Msg: msg, BlockNumber: w.c.App.LastBlockHeight() + int64(q.Bn),
@@ -594,6 +612,7 @@ func errClass(err error) string {
 
 type runOut struct {
 	hash, next string
+	baseFee    string
 	tx         []byte
 	txOK       bool
 	bal        []string
@@ -700,12 +719,15 @@ func runReplica(t *testing.T, in *c09Input, withQueries bool) runOut {
 		inject()
 	}
 	// a second, plain transaction in the same block: "post" is an injection BETWEEN two transactions
-	msg2, err := c.SignEth(w.S, &evm.EvmTxArgs{Nonce: 1, GasLimit: tailGasLimit, GasPrice: big.NewInt(gasPriceWei), To: &w.Z, Amount: unibiWei(tailAmount)})
+	// dynamic-fee tx: fee cap 3x, tip 1x the base fee => effective price = base fee + tip = 2 unibi per gas, so a
+	// changed base fee shows in its fee / refund (the scenario tx above is priced EXACTLY at the base fee)
+	msg2, err := c.SignEth(w.S, &evm.EvmTxArgs{Nonce: 1, GasLimit: tailGasLimit, GasFeeCap: big.NewInt(3 * gasPriceWei), GasTipCap: big.NewInt(gasPriceWei),
+		To: &w.Z, Amount: unibiWei(tailAmount), Accesses: &gethcore.AccessList{}})
 	if err != nil {
 		t.Fatal(err)
 	}
 	var r2 abci.ResponseDeliverTx
-	if p := Recover(func() { r2 = c.DeliverEth(msg2) }); p != "" {
+	if p := Recover(func() { r2 = deliverEthEffective(c, msg2) }); p != "" {
 		out.panicked += "tx2:" + p
 	}
 	if os.Getenv("VERIF_C09_DEBUG") != "" && r2.Code != 0 {
@@ -741,7 +763,40 @@ func runReplica(t *testing.T, in *c09Input, withQueries bool) runOut {
 	c.BeginBlock(5 * time.Second)
 	_, h = c.EndBlock()
 	out.next = hex.EncodeToString(h)
+	// node-level read-back that is not part of any store: the base fee the node quotes and charges
+	if r, err := w.grpc("/eth.evm.v1.Query/BaseFee", &evm.QueryBaseFeeRequest{}); err == nil {
+		out.baseFee = hex.EncodeToString(r.Value)
+	} else {
+		out.baseFee = "err"
+	}
 	return out
+}
+
+// deliverEthEffective wraps a dynamic-fee MsgEthereumTx like the JSON-RPC layer does (BuildTx): the Cosmos fee is the
+// EFFECTIVE fee at the (constant) base fee, not gas * fee cap.
+func deliverEthEffective(c *Chain, m *evm.MsgEthereumTx) abci.ResponseDeliverTx {
+	b := c.TxCfg.NewTxBuilder().(authtx.ExtensionOptionsTxBuilder)
+	opt, err := codectypes.NewAnyWithValue(&evm.ExtensionOptionsEthereumTx{})
+	if err != nil {
+		return abci.ResponseDeliverTx{Code: 9999, Log: err.Error()}
+	}
+	b.SetExtensionOptions(opt)
+	txData, err := evm.UnpackTxData(m.Data)
+	if err != nil {
+		return abci.ResponseDeliverTx{Code: 9999, Log: err.Error()}
+	}
+	fee := sdkmath.NewIntFromBigInt(evm.WeiToNative(txData.EffectiveFeeWei(evm.BASE_FEE_WEI)))
+	m.From = ""
+	if err := b.SetMsgs(m); err != nil {
+		return abci.ResponseDeliverTx{Code: 9999, Log: err.Error()}
+	}
+	b.SetFeeAmount(sdk.NewCoins(sdk.NewCoin("unibi", fee)))
+	b.SetGasLimit(m.GetGas())
+	bz, err := c.TxCfg.TxEncoder()(b.GetTx())
+	if err != nil {
+		return abci.ResponseDeliverTx{Code: 9999, Log: err.Error()}
+	}
+	return c.App.DeliverTx(abci.RequestDeliverTx{Tx: bz})
 }
 
 var baseCache = map[string]runOut{}
@@ -761,7 +816,7 @@ func runCase(t *testing.T, in *c09Input) c09Obs {
 	}
 	with := runReplica(t, in, true)
 	return c09Obs{
-		HashEq: base.hash == with.hash, NextEq: base.next == with.next, TxEq: bytes.Equal(base.tx, with.tx),
+		HashEq: base.hash == with.hash, NextEq: base.next == with.next && base.baseFee == with.baseFee, TxEq: bytes.Equal(base.tx, with.tx),
 		TxOK: with.txOK, BaseOK: base.txOK, Base: base.bal, With: with.bal, Gas: [2]int64{base.gas, with.gas},
 		Gas2: [2]int64{base.gas2, with.gas2},
 		QRes: with.qres, QGas: with.qgas, Injected: with.injected, Parked: with.parked,
@@ -786,6 +841,9 @@ func genQuery(r *Rng, kinds []string) c09Query {
 	}
 	if strings.HasPrefix(q.Kind, "trace_") {
 		q.Bn = r.Pick(2, 3, 1) // last committed height, the height in progress, the one after
+	}
+	if strings.HasPrefix(q.Kind, "call_") || strings.HasPrefix(q.Kind, "est_") {
+		q.Args = []string{"", "1559", "legacy", "access", "biggas"}[r.Pick(3, 3, 1, 1, 1)]
 	}
 	return q
 }
@@ -858,6 +916,19 @@ func openers() []c09Input {
 	}
 	for _, p := range []string{"pre", "post", "interblock"} {
 		out = append(out, mk("call_bank", p, 2), mk("sim_evm", p, 2))
+	}
+	// eth_call / estimateGas the way EIP-1559 wallets send them (fee cap + non-zero tip, no gasPrice), and the other argument styles
+	for _, k := range []string{"call_xfer", "est_xfer", "call_read"} {
+		for _, p := range []string{"pre", "post", "interblock"} {
+			in := mk(k, p, 2)
+			in.Queries[0].Args = "1559"
+			out = append(out, in)
+		}
+	}
+	for _, a := range []string{"legacy", "access", "biggas"} {
+		in := mk("call_xfer", "pre", 2)
+		in.Queries[0].Args = a
+		out = append(out, in)
 	}
 	// trace requests naming the height of the block in progress (their context keeps the header of the last committed one)
 	for _, k := range []string{"trace_call", "trace_block", "trace_bank"} {
